@@ -36,6 +36,8 @@ C2 ::= CHOICE { a INTEGER, b INTEGER, c BOOLEAN }
 C3 ::= CHOICE { a T, b T, c U, d U }
 C4 ::= CHOICE { a SEQUENCE { p NULL }, b SEQUENCE OF T, c SEQUENCE OF T, ..., d UTF8String }
 C5 ::= CHOICE { r C5, n NULL }
+C8 ::= CHOICE { a T, b M.T, c BOOLEAN }
+C9 ::= CHOICE { a SEQUENCE OF U, b SEQUENCE OF M.U }
 C6 ::= CHOICE { small SEQUENCE OF INTEGER (0..10), large SEQUENCE OF INTEGER (0..200), flag BOOLEAN }
 C7 ::= CHOICE { x SET OF INTEGER (0..10), y SET OF INTEGER (0..10), z SEQUENCE OF SEQUENCE { q NULL }, w SEQUENCE OF SEQUENCE { q NULL } }
 S ::= SET { a [0] C1, b [1] SEQUENCE { c C2 OPTIONAL } }
@@ -70,6 +72,8 @@ pub fn configs(all: bool) -> Vec<Cfg> {
         Some(vec!["#[derive(AsnType, Debug, Eq)]".into(), "#[derive(Debug , Hash,Clone)]".into()]),
         // derives given by path and with underscores (not bare identifiers), next to a bare one
         Some(vec!["#[derive(serde::Serialize, my_crate::Some_Trait)]".into(), "#[derive(PartialOrd)]".into()]),
+        // required derives listed again next to a derive given by path, and with a trailing comma
+        Some(vec!["#[derive(Debug, Clone, serde::Serialize)]".into(), "#[derive(PartialEq, Hash,)]".into()]),
         // derives rasn does not need, listed twice within one attribute and across two
         Some(vec!["#[derive(Eq, Hash, Eq)]".into(), "#[derive(Hash, PartialOrd)]".into(), "#[derive(PartialOrd)]".into()]),
     ];
